@@ -303,8 +303,8 @@ func CheckC02(r *core.Run) {
 		rng.Shuffle(len(sel), func(i, j int) { sel[i], sel[j] = sel[j], sel[i] })
 		sel = sel[:limit]
 	}
-	r.Extra["replay_paths_total"] = len(max)
-	r.Extra["replay_paths_with_readers_and_writers"] = len(sel)
+	r.SetExtra("replay_paths_total", len(max))
+	r.SetExtra("replay_paths_with_readers_and_writers", len(sel))
 	traces := make([]*core.Trace, len(sel))
 	var wg sync.WaitGroup
 	sem := make(chan struct{}, 8)
